@@ -506,7 +506,7 @@ impl<const N: usize> Read for ProbeReader<N> {
 
 //@ harness: c06_rabin_first_chunk_frag
 //@ prop: C06
-//@ tier: quick
+//@ tier: experimental
 //@ timeout: 1500
 //@ mem: 24
 //@ unwindset: calculate_out_table#0=64; calculate_out_table#1=258; calculate_mod_table#0=258; modulo#0=64
